@@ -16,7 +16,7 @@ META = {
         'R1': 'image enumeration: per dimensionality the wrapped search seeds the heap with every root child under every shift (i*w_x, j*w_y, k*w_z), '
               'i,j,k in {-1,0,1} on active axes and {0} on inactive axes, each combination once; children inherit the shift of their parent',
         'R2': 'reported shift == -(query shift), None iff zero (C03.R4)',
-        'R3': 'periodic start box reaches A - W/2 and A + 3W/2 on active axes (C02.R3); the width given to the search is the width the boundary was built from',
+        'R3': 'periodic start box reaches strictly beyond A - W/2 and A + 3W/2 on active axes (C02.R3); the width given to the search is the width the boundary was built from',
         'R4': 'search keys are distances to the position the builder uses: leaf key == |q + s - g|^2 == |q - (g + reported shift)|^2 (C17.R2)',
         'R5': 'route selection: `periodic` selects the wrapped search and `!periodic` the plain one, identically at both entry points',
         'R6': 'own images are candidates like any other: the builder removes exactly the first stream item (the generator itself, unshifted) and does not filter later items by index (C01.R1)',
